@@ -120,6 +120,13 @@ def make_replay(prop, rec, failed, out_dir):
     dem_iter = iter(dem_nonempty)
     nparams = len(ctx.ir_order)
     D.append("  unsigned char *pre_args[%d] = {0}; unsigned char *post_args[%d] = {0};" % (nparams + 1, nparams + 1))
+    # floating-point functions: when the verifier's counterexample (attempt 0) does not fail on the real code -- typically a counterexample
+    # of an abstraction -- the driver goes on through a lattice of special operand values (zeros, small integers and halves, infinities,
+    # a subnormal, the largest finite value), the same value of an operand in lane 0 and shifted values in the other lanes; the first input
+    # for which the real code violates the contract natively is reported (with that input).  Found natively, never by assumption.
+    lattice = ctx.isfloat and fn.row.ret != "V" and fn.level != "compound"
+    fills = []
+    loop_at = len(D)
     result_var = None
     for (kind, cname, ctype) in ctx.ir_order:
         if kind == "sret":
@@ -166,6 +173,10 @@ def make_replay(prop, rec, failed, out_dir):
         for o, (nb, v) in vals.items():
             by[o:o + nb] = int(v).to_bytes(nb, "little")
         D.append("  alignas(64) static unsigned char in%d[%d] = {%s};" % (k, nbytes, ",".join(str(b) for b in by)))
+        ptid = (fn.cls_type.tid if kind == "this" else getattr(pt, "tid", None)) or (ctx.tid if kind in ("scalar", "value") else None)
+        if lattice and ptid in ("f32", "f64") and kind in ("this", "ptr", "scalar", "value") and nbytes % (TYPES[ptid][2] // 8) == 0:
+            D.append("  if (t) ll_fill(in%d, %d, %d, t, %d);" % (k, nbytes, TYPES[ptid][2], len(fills)))
+            fills.append(k)
         D.append("  alignas(64) static unsigned char post%d[%d];" % (k, nbytes))
         D.append("  %s a%d; std::memcpy((void*)&a%d, in%d, sizeof a%d);" % (cpptype, k, k, k, k))
         D.append("  pre_args[%d] = in%d; post_args[%d] = post%d;" % (k, k, k, k))
@@ -190,11 +201,34 @@ def make_replay(prop, rec, failed, out_dir):
     if ctx.sret:
         D.append("  static unsigned char sretbuf[sizeof r]; std::memcpy(sretbuf, (void*)&r, sizeof r); post_args[0] = sretbuf; pre_args[0] = sretbuf;")
     D.append("  int pre_ok = 0; int post_ok = verif_check(ret, pre_args, post_args, &pre_ok);")
-    D.append('  std::printf("{\\"pre\\": %d, \\"post\\": %d, \\"result_bytes\\": \\"", pre_ok, post_ok);')
+    nt = 1 + min(16 ** len(fills), 4096) if fills else 1
+    D.insert(loop_at, "  int first_pre = 0, first_post = 0; for (int t = 0; t < %d; ++t) {" % nt)
+    D.append("  if (t == 0) { first_pre = pre_ok; first_post = post_ok; }")
+    D.append("  if ((pre_ok && !post_ok) || %d == 1) {" % nt)
+    D.append('  std::printf("{\\"pre\\": %d, \\"post\\": %d, \\"attempt\\": %d, \\"result_bytes\\": \\"", pre_ok, post_ok, t);')
     D.append('  for (unsigned i = 0; i < sizeof ret; ++i) std::printf("%02x", ret[i]);')
-    D.append('  std::printf("\\"}\\n");')
-    D.append("  return (pre_ok && !post_ok) ? 1 : 0;")
+    D.append('  std::printf("\\", \\"inputs_hex\\": [");')
+    for j, k_ in enumerate(fills):
+        D.append('  std::printf("%s\\"");' % (", " if j else ""))
+        D.append('  for (unsigned i = 0; i < sizeof in%d; ++i) std::printf("%%02x", in%d[i]);' % (k_, k_))
+        D.append('  std::printf("\\"");')
+    D.append('  std::printf("]}\\n");')
+    D.append("  return (pre_ok && !post_ok) ? 1 : 0; }")
+    D.append("  }")
+    D.append('  std::printf("{\\"pre\\": %d, \\"post\\": %d, \\"attempts\\": %d, \\"result_bytes\\": \\"\\"}\\n", first_pre, first_post, ' + str(nt) + ');')
+    D.append("  return 0;")
     D.append("}")
+    fill_fn = [
+        "#include <cmath>", "#include <cfloat>",
+        "static void ll_fill(unsigned char *p, int nbytes, int w, int t, int ord) {",
+        "  static const double V[16] = {0.0, -0.0, 1.0, -1.0, 1.5, 2.0, 3.0, -3.0, 0.5, -2.0, INFINITY, -INFINITY, 0.0, 0.0, 4.0, -1.5};",
+        "  int idx = t - 1; for (int i = 0; i < ord; ++i) idx /= 16; idx %= 16;",
+        "  int n = nbytes / (w / 8);",
+        "  for (int j = 0; j < n; ++j) { int q = (idx + 5 * j) % 16;",
+        "    if (w == 32) { float f = q == 12 ? 1e-40f : q == 13 ? FLT_MAX : (float)V[q]; std::memcpy(p + 4 * j, &f, 4); }",
+        "    else { double d = q == 12 ? 1e-310 : q == 13 ? DBL_MAX : V[q]; std::memcpy(p + 8 * j, &d, 8); } } }"]
+    main_at = D.index("int main() {")
+    D[main_at:main_at] = fill_fn
     with open(os.path.join(out_dir, "driver.cpp"), "w") as f:
         f.write("\n".join(D) + "\n")
     with open(os.path.join(out_dir, "build.sh"), "w") as f:
